@@ -42,10 +42,18 @@ func newEdge(node, parent, typ string, ts int64) Req {
 }
 
 // NumHistories is the number of histories.
-const NumHistories = 5
+const NumHistories = 6
 
 // Universe of node ids used by the histories.
 var Universe = []string{"A", "B", "C"}
+
+// RootSwitch: history in which a second node is placed below the root sentinel at run time (what an import at
+// "root" does): the store makes it the instance root. NewRoot is its id, RootSwitchAt the index of that request.
+const (
+	RootSwitch   = 5
+	NewRoot      = "X"
+	RootSwitchAt = 1
+)
 
 // History returns the request list of history h.
 func History(h int, root string) []Req {
@@ -87,6 +95,14 @@ func History(h int, root string) []Req {
 			newEdge("B", "A", "group", 13),
 			newEdge("A", root, "group", 14),
 			np("C", "update deep below", data.Point{Type: "value", Value: 5, Time: t(15)}),
+		}
+	case RootSwitch:
+		return []Req{
+			np(root, "point on the root", data.Point{Type: "description", Text: "first root", Time: t(10)}),
+			newEdge(NewRoot, "root", "device", 11),
+			np(NewRoot, "point on the new root", data.Point{Type: "description", Text: "second root", Time: t(12)}),
+			np(root, "point on the old root", data.Point{Type: "value", Value: 4, Time: t(13)}),
+			newEdge("A", NewRoot, "group", 14),
 		}
 	case 4:
 		// long texts: rows that spill into overflow page chains, rewritten and deleted again
